@@ -78,7 +78,7 @@ Ltac finQ :=
 Lemma step_invQ i0 hw s c s' : step repaired s c = Some s' -> InvA s -> InvQ i0 hw s -> InvQ i0 hw s'.
 Proof.
   unfold step. destruct (panic s) eqn:Hp; [discriminate|].
-  intros H [A1 A2 A3 A4 A5 A6 A7 A8 A9 A10 A11 A12 A13 A14] [Q0 Q1 Q2 Q3 Q4 Q5 Q6 Q7 K1 K2 K3 K4 R1 R2 R3 R4 R5].
+  intros H [A1 A2 A3 A4 A5 A6 A7 A8 A9 A10 A11 A12 A13 A14 A15] [Q0 Q1 Q2 Q3 Q4 Q5 Q6 Q7 K1 K2 K3 K4 R1 R2 R3 R4 R5].
   destruct c.
   - unfold send_step in H; dmatch H; inv H; constructor; cbn; auto. all: finQ.
   - unfold writer_step in H; dmatch H; inv H; constructor; cbn; auto. all: finQ.
